@@ -31,6 +31,7 @@ func checkC05(c *Check) {
 	c.readerHandoffRule("C05.2 reader-join")
 	c.rendezvousChannels("C05.2 rendezvous-channels")
 	c.registryLocked("C05.2 lock-released")
+	c.noWaitUnderLock("C05.2 no-wait-under-lock")
 	c.fsmContracts("C05.1 fsm-effects")
 	c.closeOnce("C05.1 close-once")
 	c.disableEnablePairing("C05.1 fsm-table-consistent")
